@@ -37,6 +37,9 @@ func inCertFragment(d *vdev) bool {
 				}
 			}
 		case graphKind(k):
+			if k == "user" && d.localUser(n) {
+				return false // local accounts are not in the model
+			}
 			if defaultTG[n] != "" || n == defaultGP {
 				return false
 			}
